@@ -677,7 +677,8 @@ theorem stubD_helper_text_parses (apd : Bool) (w : World) (src : ClassSrc) (anns
     (h : textDomain anns (stubInitD apd w src).params = true) :
     parseDef (helperToks anns hk (stubInitD apd w src)) =
       some ⟨helperName hk, helperLeadInfos hk ++
-        ((stubInitD apd w src).params.map (helperInfo hk) ++ kwInfos (stubInitD apd w src).kw)⟩ :=
+        ((helperFields hk (stubInitD apd w src).params).map (helperInfo hk) ++
+          kwInfos (stubInitD apd w src).kw (kwName (stubInitD apd w src).params))⟩ :=
   c16_helper_parses anns hk _ h
 
 /-- character level, every world: the text of the generated `__init__` lexes and parses into the parameter list read
@@ -686,7 +687,8 @@ theorem stubD_init_text_accepted (apd : Bool) (w : World) (src : ClassSrc) (anns
     (h : textDomain anns (stubInitD apd w src).params = true) :
     (lexPy (renderText (initToks anns (stubInitD apd w src)))).bind parseDef =
       some ⟨"__init__", ⟨"self", .pk, false⟩ ::
-        ((stubInitD apd w src).params.map pkInfo ++ kwInfos (stubInitD apd w src).kw)⟩ := by
+        ((stubInitD apd w src).params.map pkInfo ++
+          kwInfos (stubInitD apd w src).kw (kwName (stubInitD apd w src).params))⟩ := by
   rw [c16_lexPy_render _ (c16_lexOk_initToks anns _ h), Option.bind_some]
   exact stubD_init_text_parses apd w src anns h
 
